@@ -395,6 +395,8 @@ def r7(ctx):
     k = Kernel(ctx.ana)
     fi = k.fi
     rt = k.builder.return_term()
+    if not (isinstance(rt, Tup) and len(rt.elems) == 2 and isinstance(rt.elems[0], Sym)):
+        raise AnalysisError(f"kernel does not return a (path, cost) pair on a single path: {str(rt)[:80]}")
     path_t = rt.elems[0]
     pname = path_t.name
     steps = [s for s in k.stores if s.base_name == pname and s.idx != (tm.ZERO,)]
@@ -499,3 +501,20 @@ def r9(ctx):
         ctx.check(b.return_term() == s.base, caller, "the state that received the results is returned", role=f"handover:return:{attr}",
                   expected=str(s.base)[:80], found=str(b.return_term())[:80])
     plumb(ctx, ["label_switching_cost"], skip={("ticc_joint_labels", "label_switching_cost")})
+
+
+@rule("C01", "R10", "OWN", "the kernel only reads the cost table and the switching cost it is given", evidence=True)
+def r10(ctx):
+    """A sweep that updates rows of the caller's table in place returns a cost that no longer belongs to the table the caller
+    holds (and a second labelling of the same table differs)."""
+    from .own import describe, ext_writes, ownership
+    k = Kernel(ctx.ana)
+    q = k.fi.qualname[len("fast_ticc."):]
+    oa = ownership(ctx.ana, q)
+    for p in k.fi.params:
+        hits = list(ext_writes(oa, p))
+        for m, objs in hits:
+            ctx.fail(k.fi, f"the kernel's argument `{p}` may be modified in place at {describe(m)}", role=f"kernel-input:{p}:{m.kind}",
+                     expected="tables allocated by the kernel only", found=", ".join(sorted(map(str, objs)))[:120])
+        if not hits:
+            ctx.ok(k.fi, f"none of the {len(oa.mutations)} mutation sites of the kernel can write `{p}`", role=f"kernel-input:{p}")
